@@ -443,6 +443,30 @@ def reparsed(f):
     return g
 
 
+def same_structure_after(f):
+    """the statement of C16 itself, on the real objects: generated code, number of IR nodes and the identities of the
+    nodes that existed before are unchanged by attach + detach (a difference is a concrete failure: AssertionError)"""
+    def g(p):
+        from loki import FindNodes  # pylint: disable=import-outside-toplevel
+        allr = _all_routines(p)
+        before = [(r.name, r.to_fortran(), [id(n) for n in FindNodes(ir.Node).visit(r.body)]) for r in allr]
+        q = f(p)
+        for (name, text, ids), r in zip(before, allr):
+            after = r.to_fortran()
+            if after != text:
+                bl, al = text.splitlines(), after.splitlines()
+                k = next((i for i, (x, y) in enumerate(zip(bl, al)) if x != y), min(len(bl), len(al)))
+                raise AssertionError(f'generated code of {name} differs after attach+detach at line {k + 1}: '
+                                     f'{bl[k] if k < len(bl) else "<end>"!r} -> {al[k] if k < len(al) else "<end>"!r} '
+                                     f'({len(bl)} -> {len(al)} lines)')
+            now = {id(n) for n in FindNodes(ir.Node).visit(r.body)}
+            if len(now) != len(ids):
+                raise AssertionError(f'{name}: {len(ids)} IR nodes before, {len(now)} after attach+detach')
+        return q
+    g.__name__ = getattr(f, '__name__', 'op')
+    return g
+
+
 def c16_cases():
     from vlib.corpus import c16 as C16  # pylint: disable=import-outside-toplevel
     out = []
@@ -452,7 +476,8 @@ def c16_cases():
     ops = (('attach-detach', attach_detach_all), ('raising-body', attach_detach_raising), ('more-combinations', attach_detach_more))
     for name, src, entry, sizes in C16.sources():
         for on, f in ops:
-            out.append(Case(f'{name}/{on}', src, entry, sizes[:1], f, 'attach-detach', must_change=False, trace_pragmas=True))
+            out.append(Case(f'{name}/{on}', src, entry, sizes[:1], same_structure_after(f), 'attach-detach', must_change=False,
+                            trace_pragmas=True, raise_is_violation=('AssertionError',)))
             out.append(Case(f'{name}/{on}/reparsed', src, entry, sizes[:1], reparsed(f), 'attach-detach', must_change=False, trace_pragmas=True))
     return out
 
